@@ -76,6 +76,7 @@ type C17Env struct {
 	First func(xs []Money) Money
 	Two   func(a, b Money) []Money
 	Show  func(a fmt.Stringer) string
+	Pack  func(xs ...interface{}) interface{} // the "fast" call shape: arguments are not checked against parameter types
 
 	// ill-shaped operator targets
 	NotFunc   int
@@ -138,6 +139,7 @@ func c17Install(e *C17Env) {
 		return xs[0]
 	}
 	e.Two = func(a, b Money) []Money { logCall("Two", a, b); return []Money{a, b} }
+	e.Pack = func(xs ...interface{}) interface{} { logCall("Pack", xs...); return append([]interface{}{}, xs...) }
 	e.Show = func(a fmt.Stringer) string { logCall("Show", a); return a.String() }
 	e.OneArg = func(a Money) Money { return a }
 	e.ThreeArgs = func(a, b, c Money) Money { return a }
